@@ -1,17 +1,61 @@
 (* C10 — timer schedule laws: no self-overlap, interval / sharp / idle / initial-delay timing.
-   Only statements here; proofs in Proofs/Timer.v; model in Model/Timer.v (kopf/_core/engines/daemons.py:_timer).
+   Only statements here; proofs in Proofs/Timer.v; model in Model/Timer.v (kopf/_core/engines/daemons.py:_timer,
+   aiotime.sleep, the in-memory progression.State, execute_handler_once's classification).
+   Non-vacuity Examples (one per implication, `nv_<theorem>`): Proofs/TimerExamples.v.
 
-   Every theorem quantifies over EVERY configuration (interval, sharp, idle, initial_delay, retries,
-   timeout, backoff, errors mode — absent ones included), EVERY script of handler durations, patch
-   latencies and outcomes (of any length), EVERY list of instants of essential changes, EVERY stop
-   instant / horizon / spawn instant and every fuel of the waiting loops: the produced cycle list is a
-   prefix of the timer's behaviour, and the laws hold of every prefix.
-   `y_pend` is the instant after the result patch ("the previous run ended"), `y_hend` the instant the
-   function returned/raised, `y_start` the instant `started = clock()` = the function's entry.
-   `idle_ok e idle b s` : s is the FIRST instant >= b that is not within `idle` after the last essential
-   change, i.e. the run is postponed by idling and by nothing else. *)
+   Every theorem quantifies over EVERY configuration (interval, sharp, idle, initial_delay, retries, timeout,
+   backoff, errors mode — absent ones included), EVERY script of handler durations, patch latencies and outcomes
+   (return / TemporaryError(delay|None) / PermanentError / arbitrary exception / HandlerChildrenRetry) of ANY length,
+   EVERY list of instants of essential changes — early (before the timer's task step of that instant) and late
+   (after it), which is every order there is, because the timer reads idle_reset_time only in its own steps and
+   makes all reads of one instant in one step (S-tie C10_skeleton) — EVERY stop instant / horizon / spawn instant
+   and every fuel of the waiting loops.  The cycle list of a script is a prefix of the cycle list of every longer
+   script (C10_prefix_stable), so the laws hold of the whole, unbounded behaviour.
+   `y_pend` = instant after the result patch ("the previous run ended"), `y_hend` = instant the function
+   returned/raised, `y_start` = instant of `started = clock()` = the function's entry.
+   `idle_ok e idle b s` : s is the FIRST instant >= b not within `idle` after the last essential change, i.e.
+   the run is postponed by idling and by nothing else.
+
+   CLAUSE AUDIT (statement and quantifier of properties.jsonl C10)
+   ------------------------------------------------------------------------------------------------------------
+   clause                                             | stated by
+   ---------------------------------------------------+--------------------------------------------------------
+   S1 a timer never overlaps with itself              | FULL  C10_no_overlap (any two cycles, patch included)
+   S2 after a successful run the next run starts one  | FULL  C10_after_success (exact: first instant >= end+interval
+      interval after the previous run ended, unless   |       that idling allows), C10_after_success_no_idle (=);
+      idling postpones it                             |       it exists: C10_progress; it is a RUN exactly when the
+                                                      |       strict checks allow: C10_run_after_success (exact),
+                                                      |       C10_run_after_success_partial / _refuted  (the handler
+                                                      |       timeout counts the idle wait: CANDIDATE FINDING, reported,
+                                                      |       not recorded; monitors count it only)
+   S3 ... or on the interval grid counted from its    | FULL for "its start" = the previous run's start:
+      start, when sharp                               |       C10_after_success_sharp (exact); for "its" = the timer's
+                                                      |       first start: C10_sharp_grid_partial + C10_sharp_grid_refuted
+                                                      |       (idling re-anchors the grid; a reading, not a defect)
+   S4 after a failed run: the error's delay or the    | FULL  C10_after_failure (two consecutive runs, any retries/
+      handler's backoff instead                       |       timeout setting), C10_after_failure_exact (exact next start,
+                                                      |       interval unused); final failure => no run ever again:
+                                                      |       C10_no_run_after_final_failure
+   S5 first run not earlier than the initial delay    | FULL  C10_initial_delay (every run), C10_first_run (exact),
+                                                      |       C10_first_cycle_run (whether it is a run)
+   S6 no run within the idle time after the last      | FULL  C10_idle (early and late changes), C10_idle_only
+      essential change                                |
+   Q1 every combination of interval/sharp/idle/       | universally quantified `cfg` (options); degenerate numbers
+      initial_delay incl. absent                      |       (<= 0) included; one-shot: C10_one_shot; ends only for
+                                                      |       modelled causes: C10_final_causes
+   Q2 every handler duration (<, =, > interval)       | `e_dur` any Z (negative = 0)
+   Q3 every outcome script                            | any list of entries, any length: C10_script_order,
+                                                      |       C10_prefix_stable, C10_progress
+   Q4 every timing of object changes                  | any instants, early/late order within an instant; atomicity of
+                                                      |       check -> started -> invocation: C10_skeleton (S-tie)
+   sleeps are genuine / stop                          | C10_sleep_exact, C10_no_suspension_after_stop,
+                                                      |       C10_not_after_stop (the stall-under-stop monitor's law)
+   NOT COVERED: float rounding for non-dyadic numbers (monitor-only float stream); callable initial_delay (user
+   code: its value is the model's number); sync functions in threads; cancellation of the task (C09);
+   fuel of the idle-only polling loop (bounded by horizon/idle, not proved; C10_idle_wait_fuel covers the idle wait).
+   ------------------------------------------------------------------------------------------------------------ *)
 From Coq Require Import ZArith List Bool.
-From KV Require Import Model.Timer Proofs.Timer Proofs.TimerAwaits.
+From KV Require Import Model.Timer Proofs.Timer Proofs.TimerAwaits Proofs.TimerExamples.
 Import ListNotations.
 Open Scope Z_scope.
 
@@ -91,12 +135,9 @@ Theorem C10_after_failure_exact : forall fuel c e spawn script k y1 y2,
   nth_error (timer_cycles fuel c e spawn script) k = Some y1 ->
   nth_error (timer_cycles fuel c e spawn script) (S k) = Some y2 ->
   y_inv y1 = true -> y_done y1 = false ->
-  (forall d, e_out (y_en y1) = OTemp (Some d) ->
+  (forall d, retry_delay c (e_out (y_en y1)) = Some d ->
       y_hend y1 + d <= y_start y2 /\ idle_ok e (c_idle c) (Z.max (y_pend y1) (y_hend y1 + d)) (y_start y2)) /\
-  (e_out (y_en y1) = OTemp None -> idle_ok e (c_idle c) (y_pend y1) (y_start y2)) /\
-  (e_out (y_en y1) = OArb ->
-      y_hend y1 + c_backoff c <= y_start y2 /\
-      idle_ok e (c_idle c) (Z.max (y_pend y1) (y_hend y1 + c_backoff c)) (y_start y2)).
+  (retry_delay c (e_out (y_en y1)) = None -> idle_ok e (c_idle c) (y_pend y1) (y_start y2)).
 Proof. exact law_after_failure. Qed.
 Print Assumptions C10_after_failure_exact.
 
@@ -108,8 +149,11 @@ Theorem C10_after_failure : forall fuel c e spawn script k y1 y2,
   nth_error (timer_cycles fuel c e spawn script) k = Some y1 ->
   nth_error (timer_cycles fuel c e spawn script) (S k) = Some y2 ->
   y_inv y1 = true -> y_inv y2 = true ->
-  (forall d, e_out (y_en y1) = OTemp (Some d) -> y_hend y1 + d <= y_start y2) /\
-  (e_out (y_en y1) = OArb -> c_errors c <> EIgnored -> y_hend y1 + c_backoff c <= y_start y2).
+  e_out (y_en y1) <> OOk -> (e_out (y_en y1) = OArb -> c_errors c <> EIgnored) ->
+  y_done y1 = false /\
+  (forall d, retry_delay c (e_out (y_en y1)) = Some d ->       (* TemporaryError / children-retry delay, or the backoff *)
+     y_hend y1 + d <= y_start y2 /\ idle_ok e (c_idle c) (Z.max (y_pend y1) (y_hend y1 + d)) (y_start y2)) /\
+  (retry_delay c (e_out (y_en y1)) = None -> idle_ok e (c_idle c) (y_pend y1) (y_start y2)).
 Proof. exact law_after_failure_full. Qed.
 Print Assumptions C10_after_failure.
 
@@ -135,9 +179,10 @@ Proof. exact law_first_run. Qed.
 Print Assumptions C10_first_run.
 
 (* 6. No run starts within the idle time after the last essential change (incl. the one that created the memory). *)
-Theorem C10_idle : forall fuel c e spawn script i y r,
+Theorem C10_idle : forall fuel c e spawn script i y,
   c_idle c = Some i -> In y (timer_cycles fuel c e spawn script) ->
-  (r = v_irt0 e \/ In r (v_resets e)) -> r <= y_start y -> r + i <= y_start y.
+  (forall r, r = v_irt0 e \/ In r (v_resets e) -> r <= y_start y -> r + i <= y_start y) /\
+  (forall r, In r (v_late e) -> r < y_start y -> r + i <= y_start y).
 Proof. exact law_idle. Qed.
 Print Assumptions C10_idle.
 
@@ -166,7 +211,82 @@ Print Assumptions C10_not_after_stop.
 
 (* fuel: the model's idle wait (the loop before a run) never runs out of fuel when fuel >= |changes| + 2;
    the harness evaluates the model with fuel 400 and at most 4 changes. *)
-Theorem C10_idle_wait_fuel : forall e i fuel now evs t, (List.length (v_resets e) + 2 <= fuel)%nat ->
+Theorem C10_idle_wait_fuel : forall e i fuel now evs t, (List.length (v_resets e ++ v_late e) + 2 <= fuel)%nat ->
   idle_wait fuel e i now <> (evs, WEnd (FFuel t)).
 Proof. exact idle_wait_fuel_enough. Qed.
 Print Assumptions C10_idle_wait_fuel.
+
+(* Is a due cycle a RUN?  The state is created at the instant the run is due (after the idle wait: /repo 071710e,
+   finding F1001), so the strict checks of execute_handler_once see runtime 0 and 0 retries: the first cycle and
+   every cycle after a success enters the function unless the handler is declared with timeout <= 0 or retries <= 0. *)
+Theorem C10_run_after_success : forall fuel c e spawn script k y1 y2,
+  nth_error (timer_cycles fuel c e spawn script) k = Some y1 ->
+  nth_error (timer_cycles fuel c e spawn script) (S k) = Some y2 ->
+  y_done y1 = true -> y_failed y1 = false ->
+  y_inv y2 = run_allowed c.
+Proof. exact law_run_after_success. Qed.
+Print Assumptions C10_run_after_success.
+
+Theorem C10_first_cycle_run : forall fuel c e spawn script y,
+  nth_error (timer_cycles fuel c e spawn script) 0 = Some y -> y_inv y = run_allowed c.
+Proof. exact law_first_cycle_run. Qed.
+Print Assumptions C10_first_cycle_run.
+
+(* the full statement: every due run is MADE, however long idling postponed it (regression Examples
+   ex_idle_wait_not_counted, ex_f1001_witness in Proofs/Timer.v: the former refutation witnesses) *)
+Theorem C10_run_made : forall fuel c e spawn script,
+  (c_timeout c = None \/ exists T, c_timeout c = Some T /\ 0 < T) ->
+  (c_retries c = None \/ exists N, c_retries c = Some N /\ 0 < N) ->
+  (forall y, nth_error (timer_cycles fuel c e spawn script) 0 = Some y -> y_inv y = true) /\
+  (forall k y1 y2, nth_error (timer_cycles fuel c e spawn script) k = Some y1 ->
+                   nth_error (timer_cycles fuel c e spawn script) (S k) = Some y2 ->
+                   y_done y1 = true -> y_failed y1 = false -> y_inv y2 = true).
+Proof. exact law_run_made. Qed.
+Print Assumptions C10_run_made.
+
+(* Unboundedness of "every outcome script": a longer script only extends the behaviour ... *)
+Theorem C10_prefix_stable : forall fuel c e spawn script more,
+  exists tail, timer_cycles fuel c e spawn (script ++ more) = timer_cycles fuel c e spawn script ++ tail.
+Proof. exact law_prefix_stable. Qed.
+Print Assumptions C10_prefix_stable.
+
+(* ... a run that ended for any reason but the end of the script is not changed at all by more script ... *)
+Theorem C10_final_stable : forall fuel c e spawn script more,
+  (forall t, snd (timer_run fuel c e spawn script) <> FOut t) ->
+  timer_run fuel c e spawn (script ++ more) = timer_run fuel c e spawn script.
+Proof. exact law_final_not_out_stable. Qed.
+Print Assumptions C10_final_stable.
+
+(* ... and when only the script ended (FOut t) the next cycle DOES come, at t (progress: the timer is not stuck). *)
+Theorem C10_progress : forall fuel c e spawn script t en more,
+  snd (timer_run fuel c e spawn script) = FOut t ->
+  exists y tail, timer_cycles fuel c e spawn (script ++ en :: more) = timer_cycles fuel c e spawn script ++ y :: tail /\
+                 y_start y = t /\ y_en y = en.
+Proof. exact law_progress. Qed.
+Print Assumptions C10_progress.
+
+(* What must NOT happen: a timer ends only for these causes — `break` needs neither interval nor idle; the stopper;
+   a non-suspending idle-only wait needs idle <= 0 and NO stopper set; ZeroDivisionError needs sharp with interval 0. *)
+Theorem C10_final_causes : forall fuel c e spawn script,
+  match snd (timer_run fuel c e spawn script) with
+  | FExited _ => c_interval c = None /\ c_idle c = None
+  | FStopped t => stopped e t = true
+  | FStall t => stopped e t = false /\ c_interval c = None /\ exists i, c_idle c = Some i /\ i <= 0
+  | FCrash _ => c_interval c = Some 0 /\ c_sharp c = true
+  | FOut t => stopped e t = false
+  | FHorizon _ | FFuel _ => True
+  end.
+Proof. exact timer_final_ok. Qed.
+Print Assumptions C10_final_causes.
+
+(* every recorded sleep is aiotime.sleep's: once the stopper is set nothing suspends any more ... *)
+Theorem C10_no_suspension_after_stop : forall fuel c e spawn script t d w,
+  In (ESleep t d w) (fst (timer_run fuel c e spawn script)) -> stopped e t = true -> w = Some t.
+Proof. exact law_no_suspension_after_stop. Qed.
+Print Assumptions C10_no_suspension_after_stop.
+
+(* ... and a sleep not cut short by the stopper lasts exactly max(0, delay). *)
+Theorem C10_sleep_exact : forall fuel c e spawn script t d u,
+  In (ESleep t d (Some u)) (fst (timer_run fuel c e spawn script)) -> stopped e u = false -> u = t + Z.max 0 d.
+Proof. exact law_sleep_exact. Qed.
+Print Assumptions C10_sleep_exact.
